@@ -40,7 +40,15 @@ func main() {
 		}
 		sort.Strings(ks)
 		for _, k := range ks {
-			fmt.Println(k)
+			fmt.Println(k + "\t" + d[k].Sig)
+		}
+	case "normalised":
+		// debugging aid: prints the normalised source of the files the overlay replaces
+		for path, c := range normaliseOverlay(repoRoot()) {
+			fmt.Printf("==== %s\n%s\n", path, c)
+		}
+		for _, n := range normaliseNotes {
+			fmt.Println("note:", n)
 		}
 	case "mutate":
 		os.Exit(cmdMutate(os.Args[2:]))
